@@ -1,7 +1,8 @@
 //! Family `crash`: a fixed network workload on four hosts, with Sim::crash /
 //! Sim::bounce injected at scripted step indices. Serves C04.
 //!
-//! case = {"id", "cfg": {tick_ms, lat_ms, seed, random_order}, "events": [ev ..], "twin": bool}
+//! case = {"id", "cfg": {tick_ms, lat_ms, seed, random_order, mc_members: [host ..]}, "events": [ev ..], "twin": bool}
+//! (mc_members: hosts among n2, n3 that also join the multicast group 239.1.1.1:9100)
 //! ev   = ["step"] | ["crash", sel] | ["bounce", sel] | ["probe"]
 //! sel  = {"h": i} | {"ip": i} | {"re": "regex"}          (hosts are n0 .. n3)
 //!
@@ -52,6 +53,8 @@ struct Ctx {
     host: usize,
     inc: u64,
     tick: Duration,
+    /// this host also runs a listener that is a member of the multicast group (port 9100)
+    mc_member: bool,
 }
 
 impl Ctx {
@@ -418,8 +421,34 @@ async fn client(c: Ctx) -> turmoil::Result {
 
 // ---- the uninvolved pair (n2 serves, n3 pings) ---------------------------------------
 
+/// Optional extra member of the multicast group 239.1.1.1:9100 (cfg.mc_members):
+/// logs every datagram it receives.
+fn spawn_mc_member(c: &Ctx) {
+    if !c.mc_member {
+        return;
+    }
+    let c = c.clone();
+    tokio::task::spawn_local(async move {
+        let _g = c.guard("mc");
+        let s = match UdpSocket::bind(any(9100)).await {
+            Ok(s) => s,
+            Err(e) => return c.log("mc", "bind", json!(9100), json!(kind(&e))),
+        };
+        let _o = c.obj(json!(["udp", 9100]));
+        let j = s.join_multicast_v4(GROUP, Ipv4Addr::UNSPECIFIED);
+        c.log("mc", "join", json!(j.is_ok()), Value::Null);
+        let mut buf = [0u8; 16];
+        loop {
+            let Ok((_, _)) = s.recv_from(&mut buf).await else { break };
+            let id = u64::from_le_bytes(buf[..8].try_into().unwrap());
+            c.log("mc", "recv", json!(id), Value::Null);
+        }
+    });
+}
+
 async fn u_server(c: Ctx) -> turmoil::Result {
     let _g = c.guard("main");
+    spawn_mc_member(&c);
     let l = TcpListener::bind(any(9500)).await?;
     let _ol = c.obj(json!(["listener", 9500]));
     let u = UdpSocket::bind(any(9600)).await?;
@@ -459,6 +488,7 @@ async fn u_server(c: Ctx) -> turmoil::Result {
 
 async fn u_client(c: Ctx) -> turmoil::Result {
     let _g = c.guard("main");
+    spawn_mc_member(&c);
     let peer = c.sh.ips.borrow()[2];
     tokio::time::sleep(c.tick).await;
     let r: std::io::Result<()> = async {
@@ -562,15 +592,20 @@ fn run_once(case: &Value, with_faults: bool) -> Value {
     let sh = Rc::new(Shared::default());
     let ips: Vec<IpAddr> = (0..NH).map(|i| sim.lookup(format!("n{i}"))).collect();
     *sh.ips.borrow_mut() = ips.clone();
+    let mc_members: Vec<usize> = cfg["mc_members"]
+        .as_array()
+        .map(|a| a.iter().map(|x| x.as_u64().unwrap() as usize).collect())
+        .unwrap_or_default();
     for h in 0..NH {
         let sh2 = sh.clone();
+        let mc_member = mc_members.contains(&h);
         sim.host(format!("n{h}"), move || {
             let inc = {
                 let mut s = sh2.starts.borrow_mut();
                 s[h] += 1;
                 s[h] - 1
             };
-            let c = Ctx { sh: sh2.clone(), host: h, inc, tick };
+            let c = Ctx { sh: sh2.clone(), host: h, inc, tick, mc_member };
             async move {
                 match h {
                     0 => server(c).await,
